@@ -45,11 +45,11 @@ C04Labels(c) ==
   IF Returned(c) /\ \E i \in DOMAIN S(c) : ~StrideOK(c, i) THEN {"stride-not-the-documented-step"} ELSE {}
 
 Total(c) == NCons(c, Len(S(c)))
-Rest(c)  == SubSeq(c.msgs, Total(c) + 1, Len(c.msgs))
+Rest(c)  == IF Total(c) >= Len(c.msgs) THEN <<>> ELSE SubSeq(c.msgs, Total(c) + 1, Len(c.msgs))
 
 C05Labels(c) ==
   IF ~Returned(c) THEN {} ELSE
-  (IF ConsumedSeq(c) # SubSeq(c.msgs, 1, Total(c)) \/ Total(c) > Len(c.msgs) THEN {"consumption-out-of-order"} ELSE {})
+  (IF Total(c) > Len(c.msgs) \/ ConsumedSeq(c) # SubSeq(c.msgs, 1, Total(c)) THEN {"consumption-out-of-order"} ELSE {})
   \cup (IF Len(S(c)) > Limit(c) /\ Limit(c) >= 0 THEN {"more-steps-than-limit"} ELSE {})
   \cup (IF c.out.stopped \in {"Limited", "BreakpointReached"} /\ c.out.remaining # Rest(c) THEN {"wrong-remainder"} ELSE {})
   \cup (IF c.out.stopped = "Limited" /\ Len(S(c)) # Limit(c) /\ Limit(c) >= 0 THEN {"limited-before-limit"} ELSE {})
